@@ -479,6 +479,24 @@ def rule_U1(ctx, rid='U1'):
     cfg = cfg_of(f)
     idx = [p for p in f.params if p != f.self_name][0]
     n = 0
+    # a complete recomputation: every statistic of the shell is assigned on every path
+    for a in ('shell_n', 'shell_log_v', 'shell_log_l', 'shell_n_eff'):
+        nodes = set()
+        for nn in cfg.nodes:
+            if nn.kind == 'stmt' and isinstance(nn.ast, ast.Assign):
+                for t in nn.ast.targets:
+                    ra = root_attr(t, f.self_name)
+                    if ra and ra[0] == a and ra[1] and ra[1][0][0] == 'idx' and \
+                            isinstance(ra[1][0][1], ast.Name) and ra[1][0][1].id == idx:
+                        nodes.add(nn.id)
+        ok = bool(nodes) and cfg.must_pass(cfg.entry.id, cfg.exit.id, nodes)
+        n += 1
+        ctx.ob(rid, 'Sampler.update_shell_info:recomputes(%s)' % a, ok, f.where(),
+               '%s[%s] is assigned on every path' % (a, idx) if ok else
+               '%s[%s] is %s: after the call the statistic still describes the samples the '
+               'shell held before' % (a, idx, 'never assigned' if not nodes else
+                                      'left unassigned on some path (e.g. for a shell that '
+                                      'became empty)'))
     bad = []
     for sub in walk_no_nested(f.node):
         if isinstance(sub, ast.Subscript):
